@@ -269,11 +269,17 @@ def subL (i : Int) : List Ty → List Ty × Flags
     (t :: ts, f.or g)
 
 /-- `e[i]`: `_check_dunder_call` distributes over the members of a union and unites the results -/
-def subscript (v : Ty) (i : Int) : Ty × Flags :=
+def subscript0 (v : Ty) (i : Int) : Ty × Flags :=
   match v with
   | .union [] => (.union [], { frag := true })   -- a call on `Never` also marks the scope as left: not modelled
   | .union ts => let (rs, f) := subL i ts; (unite rs, f)
   | _ => sub1 v i
+
+/-- `e[i]`. A `__getitem__` whose result is `Never` (the selected member is `Never`) is a call that does not return:
+pyanalyze marks the scope as left (the rest of the branch does not reach the join), which is not modelled: flagged. -/
+def subscript (v : Ty) (i : Int) : Ty × Flags :=
+  let r := subscript0 v i
+  (r.1, r.2.or { frag := match r.1 with | .union [] => true | _ => false })
 
 /-! ## iterable unpacking (`value.py:3135 unpack_values`, no starred target) -/
 
